@@ -83,15 +83,15 @@ Proof.
 Qed.
 
 Definition msg_coherentb (S : mspec) : bool :=
-  coherent_pspecb (ms_mti S) && bm_auto (ms_bm S) && (1 <=? bm_len (ms_bm S)) &&
+  coherent_pspecb (ms_mti S) && (1 <=? bm_len (ms_bm S)) &&
   (match bm_enc (ms_bm S) with EncBinary | EncHex => true | _ => false end) &&
   (match bm_pref (ms_bm S) with PFixed _ => true | _ => false end) &&
   forallb (fun ids => coherentb (snd ids)) (ms_fields S).
 
 Theorem msg_coherentb_sound S : msg_coherentb S = true -> msg_coherent S.
 Proof.
-  unfold msg_coherentb. intros H. do 5 (apply Bool.andb_true_iff in H; destruct H as (H & ?)).
-  split; [apply coherent_pspecb_sound; exact H|]. split; [assumption|]. split; [lia|].
+  unfold msg_coherentb. intros H. do 4 (apply Bool.andb_true_iff in H; destruct H as (H & ?)).
+  split; [apply coherent_pspecb_sound; exact H|]. split; [lia|].
   split; [destruct (bm_enc (ms_bm S)); try discriminate; [left|right]; reflexivity|].
   split; [destruct (bm_pref (ms_bm S)) as [f| | |]; try discriminate; exists f; reflexivity|].
   intros id s Hl. apply coherentb_sound. match goal with Hf : forallb _ _ = true |- _ => rewrite forallb_forall in Hf; apply (Hf (id, s)) end.
@@ -104,3 +104,46 @@ Definition spec_of_string (t : string) : option mspec :=
   | Some sx => parse_mspec sx
   | None => None
   end.
+
+(* ---- the conditions of the no-panic theorems (Proofs/NoPanicProofs.v), decided ---- *)
+From Iso Require Import Proofs.NoPanicProofs.
+
+Fixpoint wfsb (s : fspec) : bool :=
+  match s with
+  | FPrim p => 0 <=? ps_len p
+  | FComp pref len mode subs =>
+      (0 <=? len) && nodupb (map fst subs) &&
+      match mode with
+      | CTag t => match tg_enc t with Some e => (1 <=? tg_len t) || match e with EncBerTag => true | _ => false end | None => true end
+      | CBitmap b => (1 <=? bm_len b) && (match bm_enc b with EncBinary | EncHex => true | _ => false end) && (match bm_pref b with PFixed _ => true | _ => false end)
+      end &&
+      (fix go (l : list (bytes * fspec)) : bool := match l with [] => true | (_, s') :: r => wfsb s' && go r end) subs
+  end.
+
+Theorem wfsb_sound s : wfsb s = true -> wfs s.
+Proof.
+  induction s as [p|pref len mode subs IH] using fspec_ind'; intros H; [cbn in *; lia|].
+  cbn [wfsb] in H. apply Bool.andb_true_iff in H. destruct H as (H & H4). apply Bool.andb_true_iff in H. destruct H as (H & H3).
+  apply Bool.andb_true_iff in H. destruct H as (H1 & H2). cbn [wfs].
+  split; [lia|]. split; [apply nodupb_sound; exact H2|]. split.
+  - destruct mode as [t|b].
+    + destruct (tg_enc t) as [e|]; [|exact I]. apply Bool.orb_true_iff in H3. destruct H3 as [H3|H3]; [left; lia|right; destruct e; try discriminate; reflexivity].
+    + apply Bool.andb_true_iff in H3. destruct H3 as (H3 & H3c). apply Bool.andb_true_iff in H3. destruct H3 as (H3a & H3b).
+      split; [lia|]. split; [destruct (bm_enc b); try discriminate; [left|right]; reflexivity|]. destruct (bm_pref b) as [f| | |]; try discriminate. exists f. reflexivity.
+  - clear - IH H4. induction subs as [|(t, s1) r IHr]; [exact I|]. apply Bool.andb_true_iff in H4. destruct H4 as (Ha & Hb). split.
+    + apply (IH t s1 (or_introl eq_refl)). exact Ha.
+    + apply IHr; [intros tag s' Hi; apply (IH tag s'); right; exact Hi|exact Hb].
+Qed.
+
+Definition wfmb (S : mspec) : bool :=
+  (0 <=? ps_len (ms_mti S)) && (1 <=? bm_len (ms_bm S)) && (match bm_enc (ms_bm S) with EncBinary | EncHex => true | _ => false end) &&
+  (match bm_pref (ms_bm S) with PFixed _ => true | _ => false end) && forallb (fun ids => wfsb (snd ids)) (ms_fields S).
+
+Theorem wfmb_sound S : wfmb S = true -> wfm S.
+Proof.
+  unfold wfmb. intros H. do 4 (apply Bool.andb_true_iff in H; destruct H as (H & ?)).
+  split; [lia|]. split; [lia|]. split; [destruct (bm_enc (ms_bm S)); try discriminate; [left|right]; reflexivity|].
+  split; [destruct (bm_pref (ms_bm S)) as [f| | |]; try discriminate; exists f; reflexivity|].
+  intros id s Hl. apply wfsb_sound. match goal with Hf : forallb _ _ = true |- _ => rewrite forallb_forall in Hf; apply (Hf (id, s)) end.
+  clear - Hl. induction (ms_fields S) as [|(k, v) r IH]; [discriminate|]. cbn [zlookup] in Hl. destruct (id =? k) eqn:E; [left; f_equal; [lia|congruence]|right; apply IH; exact Hl].
+Qed.
